@@ -21,9 +21,12 @@ TRUSTED = ['hand-written Gallina mirror of MPS.compress and the local SVD functi
            'numpy.argsort (unstable): a sorting permutation; the recorded permutation is an input of the model',
            'abs of a complex number (square root): oracle with contract abs(z) >= 0, abs(z)^2 = |z|^2, checked on every replayed case',
            'independent numpy re-implementation of the clauses (dense contraction, dense SVD of the first cut) in harness/props/c13.py (search only)']
-PARTIAL = ('see Properties/C13.v: proved for all inputs = the theorems listed there; validated numerically on every generated input only = whatever is named _partial there or '
-           'kept as a comment (in particular the exact error identity, the from_vector bound and the Schmidt-value statement for the first truncated bond), rounding, '
-           'that the code computes what the model computes.')
+PARTIAL = ('proved for all inputs (Properties/C13.v, closed under the global context): C13_compress_nrm_partial (whenever the model of MPS.compress returns (psi\', nrm, scale) '
+           'on a well-formed block-sparse MPS with a QR oracle meeting its contract on the calls of the preceding orthonormalisation: nrm >= 0 and nrm^2 = <psi|psi>) and '
+           'C13_scale_bounds_partial (ordered-field algebra: 0 <= eps_i <= tol <= 1 implies 1 - L*tol <= prod(1 - eps_i) <= 1). '
+           'NOT proved, validated numerically on every generated input only: scale^2 = prod(1 - eps_i) with eps_i the discarded weights (so the bound on scale is conditional), '
+           'normalisation and canonical form of the result, bonds do not grow, tol = 0 exactness, the Schmidt-value statement for the first truncated bond, the exact error identity, '
+           'the from_vector bound (from_vector is not modelled), that the oracles meet their contracts (measured), that the code computes what the model computes (replay, form R).')
 ASSUMPTIONS = ['binary64 values are read as exact rationals; float arithmetic after a primitive is compared with tolerance 1e-9*(1+scale)',
                'MPS.from_vector is not modelled in Coq: its clause is validated numerically only',
                'the is_qsparse assertions inside MPS.compress are not mirrored by the model']
